@@ -63,31 +63,8 @@ def check(prog, run):
     cv = prog.get_func(EXE, "Executor.complete_value")
     run.looked_at(cv)
     ft = cv.params[1]
-    order = []
-    for st in cv.node.body:
-        if isinstance(st, ast.If):
-            names = [nm for names, _ in shapes.class_tests(st.test, ft) for nm in names]
-            if names:
-                order.append(names[0])
-            elif boolx.text(st.test) in ("resolved_value is None",):
-                order.append("<null>")
-    r.instance("complete_value dispatch order %s" % order)
-    want_set = {"NonNullType", "ListType", "ScalarType", "EnumType"}
-    for k in sorted(want_set):
-        r.instance("type kind %s handled" % k)
-        if k not in order:
-            run.report(r, "%s:Executor.complete_value:unhandled(%s)" % (EXE, k), cv.where(), "complete_value has no branch for %s" % k)
-    comp = [k for k in order if k in ("GraphQLCompositeType", "ObjectType", "InterfaceType", "UnionType", "GraphQLAbstractType")]
-    r.instance("composite branches %s" % comp)
-    if not ("GraphQLCompositeType" in comp or {"ObjectType", "GraphQLAbstractType"} <= set(comp) or {"ObjectType", "InterfaceType", "UnionType"} <= set(comp)):
-        run.report(r, "%s:Executor.complete_value:unhandled(composite)" % EXE, cv.where(), "object/interface/union types are not all handled")
-    if "<null>" in order and "NonNullType" in order and order.index("<null>") < order.index("NonNullType"):
-        run.report(r, "%s:Executor.complete_value:null-before-nonnull" % EXE, cv.where(),
-                   "the `resolved_value is None` short-cut precedes the NonNull branch: a null in a non-nullable position yields no error")
-    if "<null>" not in order:
-        run.report(r, "%s:Executor.complete_value:no-null-shortcut" % EXE, cv.where(), "null values are not returned as null before type dispatch")
-    elif any(k in order and order.index(k) < order.index("<null>") for k in ("ListType", "ScalarType", "EnumType", "GraphQLCompositeType")):
-        run.report(r, "%s:Executor.complete_value:null-after-dispatch" % EXE, cv.where(), "a type branch runs before the null short-cut")
+    rv = cv.params[-1]      # the resolved value
+    NULL_ATOMS = ("%s is None" % rv,)
     # path form: for a non-null value of each kind of type, every returning path went through that kind's completion step
     KIND_CLASSES = {
         "NonNull": {"NonNullType", "WrappingType"}, "List": {"ListType", "WrappingType"},
@@ -96,11 +73,12 @@ def check(prog, run):
     }
     STEP = {"NonNull": {"complete_non_nullable_value"}, "List": {"complete_list_value"}, "Scalar": {"serialize"}, "Enum": {"get_name"},
             "Object": {"execute_fields"}, "Abstract": {"execute_fields"}}
+    null_value = [False]
+    abstract_rets = []
     for kind, classes in KIND_CLASSES.items():
         def decide(t, classes=classes):
-            tt = t.replace(" ", "")
-            if tt in ("resolved_valueisNone",):
-                return False
+            if t in NULL_ATOMS:
+                return null_value[0]
             try:
                 e = ast.parse(t, mode="eval").body
             except SyntaxError:
@@ -110,23 +88,45 @@ def check(prog, run):
                 named = {x.id for x in ast.walk(e.args[1]) if isinstance(x, ast.Name)}
                 return bool(named & classes)
             return None
-        try:
-            _ev, exits = boolx.walk_under(cv.node, decide)
-        except ValueError as e:
-            raise AnalysisError("C04.K3: %s" % e)
-        rets = [(st, env) for k, st, env in exits if k == "return"]
-        r.instance("non-null value of a %s type: %d returning paths" % (kind, len(rets)))
-        for st, env in rets:
-            called = {c.func.attr for c in env.get(boolx.CALLS, ()) if isinstance(c.func, ast.Attribute)}
-            if not (called & STEP[kind]):
-                cond = ", ".join("%s=%s" % kv for kv in sorted(env.items()) if kv[0] not in boolx.META and "isinstance" not in kv[0])
-                run.report(r, "%s:Executor.complete_value:bypasses(%s)" % (EXE, kind), cv.where(st),
-                           "for a non-null value of a %s type complete_value can return `%s` without %s (when %s): the value is not "
-                           "completed/serialised as its type prescribes" % (kind, norm_stmt(st, 60), "/".join(sorted(STEP[kind])), cond or "always"))
-                break
+        for isnull in (False, True):
+            null_value[0] = isnull
+            try:
+                _ev, exits = boolx.walk_under(cv.node, decide)
+            except ValueError as e:
+                raise AnalysisError("C04.K3: %s" % e)
+            rets = [(st, env) for k, st, env in exits if k == "return"]
+            r.instance("%s value of a %s type: %d returning paths" % ("null" if isnull else "non-null", kind, len(rets)))
+            if not rets:
+                run.report(r, "%s:Executor.complete_value:unhandled(%s)" % (EXE, kind), cv.where(),
+                           "complete_value has no returning execution for a %s value of a %s type" % ("null" if isnull else "non-null", kind))
+            if kind == "Abstract" and not isnull:
+                abstract_rets = rets
+            for st, env in rets:
+                called = {c.func.attr for c in env.get(boolx.CALLS, ()) if isinstance(c.func, ast.Attribute)}
+                if isnull and kind != "NonNull":
+                    # null is returned as null before any type dispatch (the NonNull wrapper is the one that looks at it)
+                    allsteps = set().union(*STEP.values())
+                    v = boolx.path_subst(st.value, boolx.path_env(env.get(boolx.STMTS, ()), st)) if st.value is not None else None
+                    is_none = v is None or (isinstance(v, ast.Constant) and v.value is None) or (isinstance(v, ast.Name) and v.id == rv)
+                    if (called & allsteps) or not is_none:
+                        run.report(r, "%s:Executor.complete_value:no-null-shortcut" % EXE, cv.where(st),
+                                   "a null value of a %s type is not returned as null before type dispatch (`%s`, calls %s)"
+                                   % (kind, norm_stmt(st, 60), sorted(called & allsteps)))
+                        break
+                    continue
+                if not (called & STEP[kind]):
+                    cond = ", ".join("%s=%s" % kv for kv in sorted(env.items()) if kv[0] not in boolx.META and "isinstance" not in kv[0])
+                    what = "null-before-nonnull" if isnull else "bypasses(%s)" % kind
+                    run.report(r, "%s:Executor.complete_value:%s" % (EXE, what), cv.where(st),
+                               "for a %s value of a %s type complete_value can return `%s` without %s (when %s): %s"
+                               % ("null" if isnull else "non-null", kind, norm_stmt(st, 60), "/".join(sorted(STEP[kind])), cond or "always",
+                                  "a null in a non-nullable position yields no error" if isnull else
+                                  "the value is not completed/serialised as its type prescribes"))
+                    break
+    null_value[0] = False
     # a non-null value of a type that is none of the tested kinds: every execution ends in a raise
     try:
-        _ev, uexits = boolx.walk_under(cv.node, lambda t: False if (t.startswith("isinstance(%s, " % ft) or t == "resolved_value is None") else None)
+        _ev, uexits = boolx.walk_under(cv.node, lambda t: False if (t.startswith("isinstance(%s, " % ft) or t in NULL_ATOMS) else None)
     except ValueError as e:
         raise AnalysisError("C04.K3: %s" % e)
     silent = [(k, st) for k, st, env in uexits if k != "raise"]
@@ -135,41 +135,22 @@ def check(prog, run):
         run.report(r, "%s:Executor.complete_value:no-final-error" % EXE, cv.where(silent[0][1]) if silent and silent[0][1] is not None else cv.where(),
                    "unknown type kinds fall through silently")
 
-    # the local that receives resolve_type(...)'s result, whatever it is called
-    rt_names = {t.id for n in own_nodes(cv.node) if isinstance(n, ast.Assign) and isinstance(n.value, ast.Call)
-                and isinstance(n.value.func, ast.Attribute) and n.value.func.attr == "resolve_type"
-                for t in n.targets if isinstance(t, ast.Name)}
-
-    def aev(n):
-        if isinstance(n, ast.Call) and isinstance(n.func, ast.Attribute):
-            if n.func.attr == "resolve_type":
-                return "resolve_type"
-            if n.func.attr == "is_possible_type":
-                return "possible?"
-            if n.func.attr == "execute_fields":
-                return "execute_fields"
-        if isinstance(n, ast.Call) and isinstance(n.func, ast.Name) and n.func.id == "isinstance" and len(n.args) == 2 \
-                and isinstance(n.args[0], ast.Name) and n.args[0].id in rt_names and "ObjectType" in ast.unparse(n.args[1]):
-            return "object?"
-        return None
-
-    def abev(test, truth):
-        for names, _, pos in shapes.class_tests_signed(test, ft):
-            if "GraphQLAbstractType" in names:
-                return "abstract" if truth == pos else "concrete"
-        return None
-    comp_if = [st for st in cv.node.body if isinstance(st, ast.If) and any("Composite" in nm or nm in ("ObjectType",) for names, _ in shapes.class_tests(st.test, ft) for nm in names)]
-    if comp_if:
-        normal, raised = event_paths(None, aev, branch_event=abev, body=comp_if[0].body, may_raise=lambda n: None, cap=10)
-        for seq in sorted(normal):
-            r.instance("composite path %s" % list(seq))
-            if "abstract" in seq:
-                need = ["resolve_type", "object?", "possible?", "execute_fields"]
-                got = [e for e in seq if e in need]
-                if got != need:
-                    run.report(r, "%s:Executor.complete_value:abstract-path(%s)" % (EXE, ">".join(seq)), cv.where(comp_if[0]),
-                               "an abstract-typed value reaches the sub-selection through %s (expected resolve_type, ObjectType "
-                               "check, possible-type check, execute_fields)" % list(seq))
+    # abstract types, in path form: every returning execution for a non-null value of an abstract type resolved the runtime
+    # type, found it to be an ObjectType and a possible type (both tests decided true on that execution) and then executed
+    # the sub-selection
+    for st, env in abstract_rets:
+        calls = [c.func.attr for c in env.get(boolx.CALLS, ()) if isinstance(c.func, ast.Attribute)]
+        tests = [(t, v) for t, v in env.get(boolx.TESTS, ())]
+        obj_ok = any(t.startswith("isinstance(") and "ObjectType" in t and not t.startswith("isinstance(%s," % ft) and v for t, v in tests)
+        poss_ok = any("is_possible_type(" in t and v for t, v in tests)
+        seq = [c for c in calls if c in ("resolve_type", "is_possible_type", "execute_fields")]
+        r.instance("abstract path: calls %s, ObjectType check %s, possible-type check %s" % (seq, obj_ok, poss_ok))
+        if not (obj_ok and poss_ok and "resolve_type" in seq and "execute_fields" in seq and seq.index("resolve_type") < seq.index("execute_fields")):
+            run.report(r, "%s:Executor.complete_value:abstract-path(%s)" % (EXE, ">".join(seq)), cv.where(st),
+                       "an abstract-typed value reaches the sub-selection through calls %s with the ObjectType check %s and the "
+                       "possible-type check %s (expected resolve_type, then both checks passed, then execute_fields)"
+                       % (seq, "passed" if obj_ok else "not made", "passed" if poss_ok else "not made"))
+            break
     # blocking overrides must not re-implement complete_value
     bx = prog.get_class(BEXE, "BlockingExecutor")
     r.instance("BlockingExecutor overrides complete_value: %s" % ("complete_value" in bx.methods))
